@@ -24,6 +24,7 @@ fn scenario(name: &str, body: crate::rt::Body, check: Check, bound: usize) -> Sc
         nontrivial: true,
         unbounded: false,
         loop_body: false,
+        sometimes: vec![],
     }
 }
 
